@@ -289,6 +289,32 @@ pub fn observe(o: &Ontology) -> Obs {
             anomalies.push(("orpha.terms".into(), format!("orpha {}: hpo_terms() yields {x} but contains({x}) is false", g.id().as_u32())));
         }
     }
+    // further accessors that resolve ids and panic on a dangling one: rendering helpers, record -> HpoSet -> terms,
+    // group -> terms (only on small ontologies: they are linear in everything)
+    if terms.len() <= 400 {
+        if let Err(e) = guarded(|| (o.as_mermaid().len(), o.as_graphviz("dot").len())) {
+            probes.panics += 1;
+            anomalies.push(("term.children".into(), format!("as_mermaid / as_graphviz panicked: {e}")));
+        }
+        for g in o.genes().take(60) {
+            if let Err(e) = guarded(|| (g.to_hpo_set(o).iter().count(), g.hpo_terms().terms(o).count())) {
+                probes.panics += 1;
+                anomalies.push(("gene.terms".into(), format!("gene {}: to_hpo_set / terms() panicked: {e}", g.id().as_u32())));
+            }
+        }
+        for g in o.omim_diseases().take(60) {
+            if let Err(e) = guarded(|| (g.to_hpo_set(o).iter().count(), g.hpo_terms().terms(o).count())) {
+                probes.panics += 1;
+                anomalies.push(("omim.terms".into(), format!("omim {}: to_hpo_set / terms() panicked: {e}", g.id().as_u32())));
+            }
+        }
+        for g in o.orpha_diseases().take(60) {
+            if let Err(e) = guarded(|| (g.to_hpo_set(o).iter().count(), g.hpo_terms().terms(o).count())) {
+                probes.panics += 1;
+                anomalies.push(("orpha.terms".into(), format!("orpha {}: to_hpo_set / terms() panicked: {e}", g.id().as_u32())));
+            }
+        }
+    }
     // by-id lookups must return the record the iterators show, symbol == name
     for g in &genes {
         match o.gene(&g.id.into()) {
